@@ -113,7 +113,8 @@ Definition set_off (k : nat) (cfg : deviations) : deviations :=
      d_su_coincidence := if Nat.eqb k 64 then false else d_su_coincidence cfg;
      d_newsub_adj_recheck := if Nat.eqb k 62 then false else d_newsub_adj_recheck cfg;
      d_legacy_gap_recheck := if Nat.eqb k 66 then false else d_legacy_gap_recheck cfg;
-     d_md_invalid_raises := if Nat.eqb k 65 then false else d_md_invalid_raises cfg |}.
+     d_md_invalid_raises := if Nat.eqb k 65 then false else d_md_invalid_raises cfg;
+     d_legacy_stop_fault := if Nat.eqb k 67 then false else d_legacy_stop_fault cfg |}.
 
 Definition res_eqb (a b : res cand) : bool :=
   match a, b with
@@ -163,7 +164,9 @@ Record rcase := {
      and stepped by the given amounts (negative = set back) at the given monotonic instants *)
   rc_base : Z;
   rc_ppm : Z;
-  rc_steps : list (Z * Z)
+  rc_steps : list (Z * Z);
+  rc_stop_fault : bool;                         (* at removal the unsubscribe callback of a sibling trigger (MQTT) raises *)
+  rc_end_utc : Z                                (* end of the observation after the removal (monotonic) *)
 }.
 
 (* what the wall clock shows (as a UTC instant) at monotonic instant u *)
@@ -209,15 +212,15 @@ Definition rcase_model_ok (tz : tzdata) (cfg : deviations) (c : rcase) : bool :=
   forallb (run_predicted tz cfg c) (mono_runs c).
 
 (* the instants that must fire: the chain of conformant successors from startup_time up to the removal *)
-Fixpoint expected_instants (fuel : nat) (tz : tzdata) (c : rcase) (now : Z) : option (list Z) :=
+Fixpoint expected_until (fuel : nat) (tz : tzdata) (c : rcase) (limit now : Z) : option (list Z) :=
   match fuel with
   | O => None
   | S f =>
       match next_list (table_scale doc_scale_table) (sun_lookup (rc_sun c)) cron_next_impl (tz_lu tz) (tz_ul tz) all_off false
                       (rc_specs c) now (rc_su c) with
       | ROk (Some (t, _)) =>
-          if tz_lu tz t <? rc_wall c (rc_remove_utc c)
-          then match expected_instants f tz c (if t =? now then t + 1 else t) with
+          if tz_lu tz t <? rc_wall c limit
+          then match expected_until f tz c limit (if t =? now then t + 1 else t) with
                | Some l => Some (t :: l)
                | None => None
                end
@@ -226,6 +229,9 @@ Fixpoint expected_instants (fuel : nat) (tz : tzdata) (c : rcase) (now : Z) : op
       | _ => None
       end
   end.
+
+Definition expected_instants (fuel : nat) (tz : tzdata) (c : rcase) (now : Z) : option (list Z) :=
+  expected_until fuel tz c (rc_remove_utc c) now.
 
 (* (what the wall clock showed when the function ran, trigger_time) *)
 Definition time_runs (c : rcase) : list (Z * Z) :=
@@ -280,6 +286,17 @@ Fixpoint is_sublist (a b : list Z) : bool :=      (* a is a subsequence of b *)
   | x :: a', y :: b' => if x =? y then is_sublist a' b' else is_sublist a b'
   end.
 
+(* D67: legacy, failing unsubscribe at removal: exactly the conformant instants up to the END OF THE OBSERVATION run (the timer was
+   not cancelled), each once and on time, and the "shutdown" entry does not run *)
+Definition stop_fault_shape (tz : tzdata) (cfg : deviations) (c : rcase) : bool :=
+  negb (stop_completes cfg (rc_legacy c) (rc_stop_fault c)) &&
+  match expected_until 400 tz c (rc_end_utc c) (rc_su c) with
+  | Some exp => list_eqb Z.eqb (map snd (time_runs c)) exp
+  | None => false
+  end &&
+  forallb (on_time tz) (time_runs c) && Nat.eqb (count_kind c is_shutdown) 0 &&
+  Nat.eqb (count_kind c is_startup) (if rc_startup c then 1 else 0).
+
 Definition rcase_attrib (tz : tzdata) (cfg : deviations) (c : rcase) : list nat :=
   let calls_attr := flat_map (fun call => ncase_attrib tz cfg (rcall_case c call)) (rc_calls c) in
   let runs := time_runs c in
@@ -294,7 +311,8 @@ Definition rcase_attrib (tz : tzdata) (cfg : deviations) (c : rcase) : list nat 
                   && forallb (fun m => zmem m (map snd runs) || shadowed m) exp
     | None => false
     end in
-  if Nat.eqb (length late) 0 then nodup Nat.eq_dec calls_attr
+  if stop_fault_shape tz cfg c then nodup Nat.eq_dec (calls_attr ++ [67%nat])
+  else if Nat.eqb (length late) 0 then nodup Nat.eq_dec calls_attr
   else if all_late_explained && ok_shape then nodup Nat.eq_dec (calls_attr ++ concat expl)
   else [].
 
